@@ -401,8 +401,12 @@ func converge(r *core.Run, reconfigure bool) {
 		}
 	}
 	r.Notef("dirs %v (present: %v)", c.dirs, sortedKeys(pl.dirs))
+	given := uncleanDirs(src, c.dirs)
+	if fmt.Sprint(given) != fmt.Sprint(c.dirs) {
+		r.Notef("directories given as %q", given)
+	}
 	e.do("NewCache", func() {
-		cc, _ := cdi.NewCache(cdi.WithSpecDirs(c.dirs...), cdi.WithAutoRefresh(true))
+		cc, _ := cdi.NewCache(cdi.WithSpecDirs(given...), cdi.WithAutoRefresh(true))
 		e.cache = cc
 	})
 	// the history, split over 1-2 mutator tasks
